@@ -150,7 +150,7 @@ Alphabet ==
                   MChg("A", x, None, D1("null", TRUE), None),
                   MChg("A", x, None, D1("max_length", 20), None),
                   MAdd("A", x, "Int", D1("null", TRUE), None),
-                  MAdd("A", x, "Char", D2("max_length", 10, "unique", TRUE), "i"),
+                  MAdd("A", x, "Int", D2("null", TRUE, "unique", TRUE), None),
                   MDel("A", x) } : x \in FieldNames }
     [] AlphaId = 5 ->      \* field-name reuse on model A: renames, deletes, re-adds
         UNION { { MChg("A", x, None, D1("max_length", 20), None),
@@ -492,9 +492,7 @@ OpsFold(ops, g, tix) ==
                               !.gmeta = @ \/ (op.t = "change_meta"),
                               !.gdel = IF op.t = "delete_column" THEN @ \cup {op.fld} ELSE @]
              hz == (IF g2.grb /\ g2.gmeta THEN {"meta-in-rebuild-group"} ELSE {})
-                   \cup (IF op.t = "add_column" /\ op.fld \in g1.gdel
-                          THEN {"del-add-same-column"} ELSE {})
-                   \cup (IF op.rb /\ tix THEN {"tableidx-rebuilt"} ELSE {})
+
          IN OpsFold(Tail(ops), [g2 EXCEPT !.haz = @ \cup hz], tix)
 
 Bump(counts, key, n) == IF n = 0 THEN counts ELSE Put(counts, key, Get(counts, key, 0) + n)
@@ -514,18 +512,23 @@ Plan(ms, sig, curModel, g, acc) ==
                      tix  == sig[mu.m].ut # <<>> \/ sig[mu.m].idx # <<>>
                      g1   == OpsFold(OpsOf(mu, sig), gs, tix)
                      stale == mu.k \in {"Meta", "Add", "Chg", "Del"}
-                              /\ sig[mu.m].table \in acc.ren
+                              /\ (sig[mu.m].table \in acc.ren \/ sig[mu.m].table \in acc.renf)
+                     shrunk == mu.k = "Del" /\ \E i \in 1..Len(sig[mu.m].ut) :
+                                   InSeq(mu.f, sig[mu.m].ut[i]) /\ Len(sig[mu.m].ut[i]) > 1
                      onto == mu.k = "RenF" /\ mu.nf \in DOMAIN sig[mu.m].fields
                      g2   == [g1 EXCEPT !.haz = @ \cup MutHazards(mu, sig)
                                   \cup (IF stale THEN {"state-stale-after-rename"} ELSE {})
-                                  \cup (IF onto THEN {"rename-onto-existing-column"} ELSE {})]
+                                  \cup (IF onto THEN {"rename-onto-existing-column"} ELSE {})
+                                  \cup (IF shrunk THEN {"unique-together-shrunk-by-delete"} ELSE {})]
                  IN Plan(Tail(ms), Sim(mu, sig).sig, mu.m, g2,
                          [acc EXCEPT !.counts = Bump(@, sig[mu.m].table, g2.cnt),
-                                     !.ren = IF mu.k = "RenM" THEN @ \cup {mu.dbtable} ELSE @])
+                                     !.ren = IF mu.k = "RenM" THEN @ \cup {mu.dbtable} ELSE @,
+                                     !.renf = IF mu.k = "RenF" THEN @ \cup {sig[mu.m].table} ELSE @])
 
-(* ren: tables renamed so far by this AppMutator run -- DatabaseState keeps
-   tracking them under their old name until the next rescan *)
-Acc0 == [counts |-> EmptyDict, haz |-> {}, ren |-> {}]
+(* ren / renf: tables renamed, and tables with a renamed column, so far in this
+   AppMutator run -- DatabaseState keeps tracking their indexes under the old
+   table / column name until the next rescan *)
+Acc0 == [counts |-> EmptyDict, haz |-> {}, ren |-> {}, renf |-> {}]
 PlanOf(ms, sig) == Plan(ms, sig, None, G0, Acc0)
 Rebuilds(ms, sig) == PlanOf(ms, sig).counts
 
@@ -538,7 +541,7 @@ PlanIndividually(ms, sig, acc) ==
          IN PlanIndividually(Tail(ms), Sim(mu, sig).sig,
                 [counts |-> [t \in DOMAIN acc.counts \cup DOMAIN p.counts |->
                                 Get(acc.counts, t, 0) + Get(p.counts, t, 0)],
-                 haz |-> acc.haz \cup p.haz, ren |-> {}])
+                 haz |-> acc.haz \cup p.haz, ren |-> {}, renf |-> {}])
 
 (* tables linked by a RenameModel of the sequence are one table *)
 TableClass(t) ==
